@@ -12,6 +12,7 @@ import MoThreads.Driver.M7
 import MoThreads.Driver.M9
 import MoThreads.Driver.M10
 import MoThreads.Driver.M8
+import MoThreads.Driver.M2
 open MoThreads.Driver
 
 inductive Model
@@ -25,6 +26,7 @@ inductive Model
   | m9 (m : M9.Sim)
   | m10 (m : M10.Sim)
   | m8 (m : M8.Sim)
+  | m2 (m : M2.Sim)
 
 structure DState where
   runId : String := ""
@@ -53,6 +55,7 @@ def finish (d : DState) : IO Unit := do
     | .m9 m => IO.println s!"ok {d.runId} steps={m.steps}"
     | .m10 m => IO.println s!"ok {d.runId} steps={m.steps}"
     | .m8 m => IO.println s!"ok {d.runId} steps={m.steps}"
+    | .m2 m => IO.println s!"ok {d.runId} steps={m.steps}"
     | .none => IO.println s!"ok {d.runId} steps=0"
 
 def startRun (ws : List String) : Except String Model :=
@@ -65,6 +68,7 @@ def startRun (ws : List String) : Except String Model :=
   | _ :: _ :: "m5" :: _ => .ok (.m5 M5.start)
   | _ :: _ :: "m9" :: _ => .ok (.m9 {})
   | _ :: _ :: "m10" :: _ => .ok (.m10 {})
+  | _ :: _ :: "m2" :: _ => .ok (.m2 {})
   | _ :: _ :: "m8" :: rest => .ok (.m8 (M8.start (kv rest "script") ((kv rest "status").toNat?.getD 0)))
   | _ :: _ :: "m7" :: rest =>
     let fl := (kv rest "fails").splitOn "," |>.filterMap String.toNat? |>.map (· != 0)
@@ -146,6 +150,12 @@ partial def loop (h : IO.FS.Stream) (d : DState) : IO Unit := do
       | .m8 m =>
         match M8.feed m ws with
         | .ok m' => loop h { d with model := .m8 m' }
+        | .error e =>
+          IO.println s!"FAIL {d.runId} line={d.lineNo} {e}"
+          loop h { d with failed := true }
+      | .m2 m =>
+        match M2.feed m ws with
+        | .ok m' => loop h { d with model := .m2 m' }
         | .error e =>
           IO.println s!"FAIL {d.runId} line={d.lineNo} {e}"
           loop h { d with failed := true }
